@@ -16,7 +16,7 @@ def judge(w, fold=False):
     out = {"converged": trees_equal_mod_conflicted(tl, tr, fold), "artefacts": sorted(set(artefacts(tl) + artefacts(tr))),
            "trees": {"L": _show_tree(tl), "R": _show_tree(tr)}}
     have = w.all_contents()
-    must = (set(w.written) | set(getattr(w, "base_contents", ()))) - w.destroyed
+    must = (set(w.written) | set(getattr(w, "base_contents", ())) | set(getattr(w, "unsynced_base_contents", ()))) - w.destroyed
     out["lost"] = sorted(c.decode("latin1") for c in must if c not in have)
     return out
 
